@@ -377,6 +377,11 @@ func inlineLineWidths(context *layoutContext, box_ Box, outer, isLineStart,
 					if firstLine {
 						break
 					}
+					if newResumeIndex == 0 || resumeIndex+newResumeIndex > len(textRunes) {
+						// the text engine makes no progress, or resumes after
+						// the end of the text : stop instead of looping or panicking
+						break
+					}
 				}
 				if firstLine && newResumeIndex != -1 && newResumeIndex != 0 {
 					currentLine += lines[0]
